@@ -340,15 +340,73 @@ class Spy:
         return self.fn(arr, n, with_replacement, rng)
 
 
-def call_subsample(t, mods, n, axis, mode, seed):
-    """returns (result-or-error json, layout seen by the kernel, recorded generator answers, result table)"""
+CSC_HISTORIES = ["filter-samp", "transform-samp", "data-samp", "iter-samp", "subsampled-obs"]
+CSR_HISTORIES = ["fresh", "filter-obs", "transform-obs", "data-obs", "iter-obs", "subsampled-samp"]
+
+
+def apply_history(t, h):
+    """bring the input into the sparse layout a prior use leaves behind (public operations only);
+    the *-samp histories leave the matrix CSC, the others CSR"""
+    if h == "fresh":
+        return t
+    ax = "sample" if h.endswith("-samp") else "observation"
+    kind = h.rsplit("-", 1)[0]
+    if kind == "filter":
+        t.filter(lambda v, i, m: True, axis=ax, inplace=True)
+    elif kind == "transform":
+        t.transform(lambda v, i, m: v, axis=ax, inplace=True)
+    elif kind == "data":
+        if len(t.ids(axis=ax)):
+            t.data(t.ids(axis=ax)[0], axis=ax)
+    elif kind == "iter":
+        list(t.iter(axis=ax))
+    elif kind == "subsampled":
+        # the input is itself the result of an earlier subsample (all IDs drawn, so the counts stay)
+        t = t.subsample(len(t.ids(axis=ax)), axis=ax, by_id=True, seed=0)
+    else:
+        raise ValueError(h)
+    return t
+
+
+class StopRun(Exception):
+    """the input table was modified by the call: the library wrote through an alias, the process may be
+    memory-unsafe from here on; the run stops with the violation recorded"""
+
+
+def input_modified(ctx, full, tg, detail):
+    ctx.fail(full, "input-unchanged", tg, detail=detail)
+    ctx.journal(full)          # should the interpreter die while shutting down, this is the case reported
+    raise StopRun()
+
+
+def sound(t):
+    """the table's matrix is structurally valid and fits its ID lists (checked BEFORE any dense read: an
+    aliased in-place kernel/filter can leave the caller's matrix with out-of-range indices)"""
+    try:
+        m = t.matrix_data
+        if tuple(m.shape) != (len(t.ids(axis="observation")), len(t.ids())):
+            return False
+        if m.shape[0] * m.shape[1] > 0:
+            m.check_format(full_check=True)
+            if len(m.data) != len(m.indices) or int(m.indptr[-1]) != len(m.data):
+                return False
+        return True
+    except Exception:
+        return False
+
+
+def call_recorded(mods, axis, fn):
+    """run fn() (which returns a table) with the kernel spied and the generator recorded;
+    returns (result-or-error json, layout seen by the kernel, generator answers, result table, calls, kernel args)"""
     import biom.table as T
     with kernels.use_kernels(mods):
         spy = Spy(T.subsample)
         T.subsample = spy
         with record_default_rng() as rec:
             try:
-                r = t.subsample(n, axis=axis, by_id=(mode == "byid"), with_replacement=(mode == "with"), seed=seed)
+                r = fn()
+                if not sound(r):
+                    raise IndexError("the returned table's matrix is structurally invalid")
                 res = {"ok": view(r, axis)}
             except Exception as e:
                 r = None
@@ -359,71 +417,125 @@ def call_subsample(t, mods, n, axis, mode, seed):
     return res, spy.lay, rng, r, (g.calls if g else []), spy.args
 
 
-def table_case(ctx, impls, spec, route, n, axis, mode, seed, tags=()):
-    case = {"spec": core.spec_obs(spec), "route": route, "n": n, "axis": axis, "mode": mode, "seed": seed}
+def judge(ctx, case, name, t, before, before_full, outcome, n, axis, mode, tg):
+    """Lean evaluates `holds` on the implementation's result (and on the input afterwards) and compares
+    with the model; side checks on the kernel and generator calls.  Returns (full case, result table)."""
+    res, lay, rng, r, calls, kargs = outcome
+    if not sound(t):
+        full = dict(case, impl=name, result=res)
+        input_modified(ctx, full, tg + ["input-matrix-corrupted"],
+                       "after the call the input's matrix is structurally invalid or no longer fits its ID lists")
+    after = view(t, axis)
+    totals_axis = [sum(int(core.unfrac(x)) for x in v) for v in before["vecs"]]
+    if "error" in res:
+        tg = tg + ["raised:" + res["error"]]
+    req = {"op": "table", "t": before, "n": n, "mode": mode, "rng": rng, "lay": lay or [],
+           "obs": {"result": res, "after": after}}
+    full = dict(case, impl=name, request=req)
+    resp = ctx.driver.ask(req)
+    after_full = core.table_obs(t)
+    if after_full != before_full:
+        what = [k for k in before_full if before_full[k] != after_full.get(k)]
+        input_modified(ctx, full, tg, {"differs": what, "layout-before-call": case.get("layout")})
+    if not resp["model_holds"] and resp["pre"]:
+        ctx.diverge(full, "theorem model_holds contradicted by the driver", tg)
+    if not resp["holds"]:
+        ctx.fail(full, resp["clause"], tg, detail={"model": resp["model"]})
+    else:
+        if not resp["pre"]:
+            ctx.diverge(full, "layout handed to the kernel / generator answers break the recorded contract", tg,
+                        detail={"lay": lay, "rng": rng})
+        elif not resp["agree"]:
+            ctx.diverge(full, "result differs from the model", tg, detail={"model": resp["model"]})
+    # what the kernel was asked, and what the generator was asked
+    if mode != "byid" and kargs is not None:
+        want_fmt = "csr" if axis == "observation" else "csc"
+        if kargs != (n, mode == "with", want_fmt):
+            ctx.diverge(full, "kernel call arguments", tg, detail={"args": kargs})
+    if mode == "with" and "ok" in res:
+        want_m = [("multinomial", n) for x in totals_axis if x > 0]
+        got_m = [(c[0], c[1]) for c in calls]
+        if got_m != want_m or (lay is not None and len(lay) != len(want_m)):
+            ctx.diverge(full, "rng.multinomial call sequence / vectors reaching the kernel", tg,
+                        detail={"calls": got_m, "want": want_m, "lay": lay})
+    if mode == "without" and "ok" in res:
+        want = [("choice", x, n, False) for x in totals_axis if x >= n]
+        if calls != want:
+            ctx.diverge(full, "rng.choice call sequence", tg, detail={"calls": calls, "want": want})
+    # metadata travels with the IDs
+    if r is not None:
+        o1 = core.table_obs(r)
+        for ax, key, idk in (("observation", "omd", "obs"), ("sample", "smd", "samp")):
+            if before_full[key] is not None and len(o1[idk]) > 0:
+                by_id = dict(zip(before_full[idk], before_full[key]))
+                if o1[key] is None or any(by_id.get(i) != m for i, m in zip(o1[idk], o1[key])):
+                    ctx.diverge(full, "metadata of a retained ID differs from the input's", tg)
+    return full, res
+
+
+def table_case(ctx, impls, spec, route, n, axis, mode, seed, tags=(), histories=None):
+    """one Table.subsample call, with the input brought into BOTH sparse layouts by a prior use"""
+    if histories is None:
+        histories = [ctx.rng.choice(CSC_HISTORIES), ctx.rng.choice(CSR_HISTORIES)]
+    case0 = {"spec": core.spec_obs(spec), "route": route, "n": n, "axis": axis, "mode": mode, "seed": seed,
+             "histories": list(histories)}
     totals_axis = [sum(r) for r in (spec["rows"] if axis == "observation" else zip(*spec["rows"]))]
-    nontrivial = any(t > 0 for t in totals_axis)
-    ctx.case(case, nontrivial=nontrivial)
+    ctx.case(case0, nontrivial=any(t > 0 for t in totals_axis))
+    kw = dict(axis=axis, by_id=(mode == "byid"), with_replacement=(mode == "with"), seed=seed)
+    for h in histories:
+        for name, mods in impls:
+            t = apply_history(core.build(spec, route), h)
+            layout = t.matrix_data.getformat()
+            case = dict(case0, history=h, layout=layout)
+            before = view(t, axis)
+            before_full = core.table_obs(t)
+            outcome = call_recorded(mods, axis, lambda: t.subsample(n, **kw))
+            tg = list(tags) + [name, "table", mode, "axis=" + axis, "route=" + route, "history=" + h,
+                               "layout=" + layout]
+            full, res = judge(ctx, case, name, t, before, before_full, outcome, n, axis, mode, tg)
+            r = outcome[3]
+            # same seed twice => the same table
+            if r is not None and sound(t):
+                t2 = apply_history(core.build(spec, route), h)
+                with kernels.use_kernels(mods):
+                    r2 = t2.subsample(n, **kw)
+                o1, o2 = core.table_obs(r), core.table_obs(r2)
+                if o1 != o2:
+                    ctx.fail(full, "same-seed-same-result", tg, detail={"first": o1, "second": o2})
+            ctx.count("input layout=%s axis=%s mode=%s" % (layout, axis[:4], mode))
+            ctx.count("history=" + h)
+            if "ok" in res:
+                ctx.count("table mode=%s axis=%s kept=%s dropped-other=%s" % (
+                    mode, axis[:4], "all" if len(res["ok"]["ids"]) == len(before["ids"]) else
+                    ("none" if not res["ok"]["ids"] else "some"),
+                    len(res["ok"]["oids"]) < len(before["oids"])))
+            else:
+                ctx.count("table mode=%s raised %s" % (mode, res["error"]))
+
+
+def generator_case(ctx, impls, spec, route, n, axis, by_id, pulls, history, tags=()):
+    """biom.util.generate_subsamples(table, n, axis, by_id): every table pulled from the generator must
+    satisfy the same predicate as Table.subsample, and the caller's table must be what it was after each pull"""
+    from biom.util import generate_subsamples
+    mode = "byid" if by_id else "without"
+    case0 = {"op": "generate_subsamples", "spec": core.spec_obs(spec), "route": route, "n": n, "axis": axis,
+             "by_id": by_id, "pulls": pulls, "history": history}
+    totals_axis = [sum(r) for r in (spec["rows"] if axis == "observation" else zip(*spec["rows"]))]
+    ctx.case(case0, nontrivial=any(t > 0 for t in totals_axis))
     for name, mods in impls:
-        t = core.build(spec, route)
+        t = apply_history(core.build(spec, route), history)
+        layout = t.matrix_data.getformat()
         before = view(t, axis)
         before_full = core.table_obs(t)
-        res, lay, rng, r, calls, kargs = call_subsample(t, mods, n, axis, mode, seed)
-        after = view(t, axis)
-        tg = list(tags) + [name, "table", mode, "axis=" + axis, "route=" + route]
-        if "error" in res:
-            tg.append("raised:" + res["error"])
-        req = {"op": "table", "t": before, "n": n, "mode": mode, "rng": rng, "lay": lay or [],
-               "obs": {"result": res, "after": after}}
-        full = dict(case, impl=name, request=req)
-        resp = ctx.driver.ask(req)
-        if core.table_obs(t) != before_full:
-            ctx.fail(full, "input-unchanged", tg, detail="ids/metadata/type of the input differ after the call")
-        if not resp["model_holds"] and resp["pre"]:
-            ctx.diverge(full, "theorem model_holds contradicted by the driver", tg)
-        if not resp["holds"]:
-            ctx.fail(full, resp["clause"], tg, detail={"model": resp["model"]})
-        else:
-            if not resp["pre"]:
-                ctx.diverge(full, "layout handed to the kernel / generator answers break the recorded contract", tg,
-                            detail={"lay": lay, "rng": rng})
-            elif not resp["agree"]:
-                ctx.diverge(full, "result differs from the model", tg, detail={"model": resp["model"]})
-        # what the kernel was asked, and what the generator was asked
-        if mode != "byid" and kargs is not None:
-            want_fmt = "csr" if axis == "observation" else "csc"
-            if kargs != (n, mode == "with", want_fmt):
-                ctx.diverge(full, "kernel call arguments", tg, detail={"args": kargs})
-        if mode == "with" and "ok" in res:
-            want_m = [("multinomial", n) for x in totals_axis if x > 0]
-            got_m = [(c[0], c[1]) for c in calls]
-            if got_m != want_m or (lay is not None and len(lay) != len(want_m)):
-                ctx.diverge(full, "rng.multinomial call sequence / vectors reaching the kernel", tg,
-                            detail={"calls": got_m, "want": want_m, "lay": lay})
-        if mode == "without" and "ok" in res:
-            want = [("choice", x, n, False) for x in totals_axis if x >= n]
-            if calls != want:
-                ctx.diverge(full, "rng.choice call sequence", tg, detail={"calls": calls, "want": want})
-        # same seed twice => the same table; metadata travels with the IDs
-        if r is not None:
-            t2 = core.build(spec, route)
-            with kernels.use_kernels(mods):
-                r2 = t2.subsample(n, axis=axis, by_id=(mode == "byid"), with_replacement=(mode == "with"), seed=seed)
-            o1, o2 = core.table_obs(r), core.table_obs(r2)
-            if o1 != o2:
-                ctx.fail(full, "same-seed-same-result", tg, detail={"first": o1, "second": o2})
-            for ax, key, idk in (("observation", "omd", "obs"), ("sample", "smd", "samp")):
-                if before_full[key] is not None and len(o1[idk]) > 0:
-                    by_id = dict(zip(before_full[idk], before_full[key]))
-                    if o1[key] is None or any(by_id.get(i) != m for i, m in zip(o1[idk], o1[key])):
-                        ctx.diverge(full, "metadata of a retained ID differs from the input's", tg)
-        if "ok" in res:
-            ctx.count("table mode=%s axis=%s kept=%s dropped-other=%s" % (
-                mode, axis[:4], "all" if len(res["ok"]["ids"]) == len(before["ids"]) else
-                ("none" if not res["ok"]["ids"] else "some"),
-                len(res["ok"]["oids"]) < len(before["oids"])))
-        else:
-            ctx.count("table mode=%s raised %s" % (mode, res["error"]))
+        gen = generate_subsamples(t, n, axis, by_id)
+        tg = list(tags) + [name, "generate_subsamples", mode, "axis=" + axis, "route=" + route,
+                           "history=" + history, "layout=" + layout]
+        for k in range(pulls):
+            case = dict(case0, pull=k, layout=layout)
+            outcome = call_recorded(mods, axis, lambda: next(gen))
+            # the predicate is evaluated against the ORIGINAL input every time: a pull must not have changed it
+            judge(ctx, case, name, t, before, before_full, outcome, n, axis, mode, tg + ["pull=%d" % k])
+            ctx.count("generate_subsamples by_id=%s axis=%s pull=%d" % (by_id, axis[:4], k))
 
 
 def gen_count_spec(rng, max_n=6, max_m=6):
@@ -498,6 +610,13 @@ CORPUS = [
 
 
 def run(ctx):
+    try:
+        run_all(ctx)
+    except StopRun:
+        ctx.notes.append("run stopped at the first modification of an input table (aliasing: memory-unsafe to go on)")
+
+
+def run_all(ctx):
     impls = [(name, mods) for name, mods in kernels.kernel_impls()]
     for name, mods in impls:
         if mods is None:
@@ -509,7 +628,11 @@ def run(ctx):
                 "(<=30 entries, counts <=1e9, multi-row, totals equal to / just below / just above n), scripts "
                 "breaking the generator's contract, with replacement; table: Table.subsample with seeds under both "
                 "kernels, both axes, by_id, with replacement, every layout route, generator answers and kernel "
-                "layout recorded at the call boundary. distinct = distinct (vectors|table, n, axis, mode, "
+                "layout recorded at the call boundary; every table case runs with the input left in BOTH sparse "
+                "layouts (CSC and CSR) by a prior use (in-place filter/transform, data()/iter() read, result of an earlier "
+                "subsample) and the input is compared (ids, cells, metadata, matrix structure) after the call; "
+                "biom.util.generate_subsamples: 2-3 draws pulled, by_id on/off, both axes, every draw judged like "
+                "Table.subsample against the ORIGINAL input, input compared after each pull. distinct = distinct (vectors|table, n, axis, mode, "
                 "script|seed); non-trivial = some vector reaches n (kernel) / some vector on the axis is non-zero")
     ctx.trusted = ["numpy Generator: choice(total, n, replace=False) returns n distinct positions below total, uniformly; "
                    "multinomial(n, p) returns naturals summing to n, zero where p is zero; shuffle permutes uniformly "
@@ -520,7 +643,13 @@ def run(ctx):
                        "n >= 1"]
     # fixed corpus first
     for spec, route, n, axis, mode, seed in CORPUS:
-        table_case(ctx, impls, spec, route, n, axis, mode, seed, ("corpus",))
+        table_case(ctx, impls, spec, route, n, axis, mode, seed, ("corpus",),
+                   histories=["fresh", "filter-samp", "filter-obs", "subsampled-obs", "subsampled-samp"])
+    # the rarefaction helper: the docstring's table, then the 4x3 table at depths below / at / above totals
+    for spec, route, n, axis, mode, seed in CORPUS[3:8]:
+        for by_id in (False, True):
+            for h in ("fresh", "filter-samp"):
+                generator_case(ctx, impls, spec, route, n, axis, by_id, 3, h, ("corpus",))
     contract_breaking_kernel(ctx, impls)
     # exhaustive subsets
     vectors = SMALL_VECTORS if ctx.quick() else SMALL_VECTORS + [
@@ -553,9 +682,20 @@ def run(ctx):
         route = rng.choice(core.ROUTES)
         n = pick_n(rng, spec, axis, mode)
         table_case(ctx, impls, spec, route, n, axis, mode, rng.randrange(10 ** 6), ("random",))
+        if i % 4 == 0:
+            by_id = rng.random() < 0.4
+            generator_case(ctx, impls, spec, route, pick_n(rng, spec, axis, "byid" if by_id else "without"), axis,
+                           by_id, rng.choice([2, 3]), rng.choice(CSC_HISTORIES + CSR_HISTORIES), ("random",))
 
 
 def replay(ctx, rec):
+    try:
+        replay_one(ctx, rec)
+    except StopRun:
+        pass
+
+
+def replay_one(ctx, rec):
     impls = [(n, m) for n, m in kernels.kernel_impls() if m is not None]
     case = rec["case"]
     if case.get("op") == "kernel":
@@ -570,4 +710,9 @@ def replay(ctx, rec):
                 "omd": [dict((k, __import__("json").loads(v)) for k, v in m.items()) for m in s["omd"]] if s.get("omd") else None,
                 "smd": [dict((k, __import__("json").loads(v)) for k, v in m.items()) for m in s["smd"]] if s.get("smd") else None,
                 "type": s.get("type")}
-        table_case(ctx, impls, spec, case["route"], case["n"], case["axis"], case["mode"], case["seed"], ("replay",))
+        if case.get("op") == "generate_subsamples":
+            generator_case(ctx, impls, spec, case["route"], case["n"], case["axis"], case["by_id"], case["pulls"],
+                           case["history"], ("replay",))
+        else:
+            table_case(ctx, impls, spec, case["route"], case["n"], case["axis"], case["mode"], case["seed"],
+                       ("replay",), histories=case.get("histories"))
